@@ -24,7 +24,7 @@ EXPLANATION = ('Preservation obligations of the attachment forest, checked at ea
                'an abstract heap (exact write sets per path), must-pass / guard rules for the detach paths of freeSlot and PUT_COPY, '
                'who-may-write on the three link fields, and the base-chain rebuild at finalisation.  The forest property itself under '
                'arbitrary rule sequences is an induction over these steps and is not mechanised.')
-FLOORS = {'TREEWRITERS': 5, 'ATTACH': 6, 'LISTOPS': 8, 'DETACH': 7, 'BASECHAIN': 3}
+FLOORS = {'TREEWRITERS': 5, 'ATTACH': 6, 'LISTOPS': 8, 'DETACH': 8, 'BASECHAIN': 3}
 
 
 def treewriters(run, fx):
@@ -540,9 +540,54 @@ def basechain_exec(run, fx, maxn=5):
     return cases, None
 
 
+def garbage_sees_deleted(run, fx, rule='DETACH'):
+    """a deleted slot leaves its parent's child chain in Segment::freeSlot, and SlotMap::collectGarbage reaches freeSlot only for the
+    slots it finds in the slot map.  TEMP_COPY replaces a rule slot's map entry by a scratch copy, so no TEMP_COPY may be inserted for
+    a rule slot whose code deletes it: the insertion in decoder::apply_analysis is dominated by a test of a per-slot flag that
+    decoder::analyse_opcode sets in its DELETE arm."""
+    from .validators import case_context
+    aa = fx.one('graphite2::vm::Machine::Code::decoder::apply_analysis')
+    an = fx.one('graphite2::vm::Machine::Code::decoder::analyse_opcode')
+    inst = 'no TEMP_COPY for a rule slot that is deleted'
+    ins = []
+    for _, e in aa.elements():
+        if e['k'] == 'BinaryOperator' and e['op'] == '=' and aa.strip(e['c'][0])['k'] == 'UnaryOperator':
+            r = aa.strip_all_casts(aa.N(e['c'][1]))
+            txt = aa.render(r)
+            if r['k'] == 'DeclRefExpr' and r.get('vid') is not None:
+                txt = ' '.join(aa.render(aa.N(x['init'])) for _, d in aa.elements() if d['k'] == 'DeclStmt' for x in d.get('decls', []) if x.get('vid') == r['vid'] and x.get('init') is not None)
+            if 'TEMP_COPY' in txt:
+                ins.append(e)
+    if len(ins) != 1:
+        run.broken(rule, inst, 'expected the one store of the TEMP_COPY instruction in apply_analysis, found %d' % len(ins), aa.where())
+        return
+    ctx = case_context(an)
+    dele = [b['label']['lo'] for b in an.f['blocks'] if (b.get('label') or {}).get('name', '').endswith('::DELETE')]
+    if len(dele) != 1:
+        run.broken(rule, inst, 'the DELETE arm of analyse_opcode was not found', an.where())
+        return
+    # per-slot flags set (to true) in the DELETE arm
+    flags = set()
+    for _, e in an.elements():
+        if e['k'] == 'BinaryOperator' and e['op'] == '=' and str(dele[0]) in ctx.get(an.block_of[e['i']], ()) and an.strip_all_casts(an.N(e['c'][1])).get('v') == 1:
+            t = an.strip(e['c'][0])
+            if t['k'] == 'MemberExpr' and '_contexts' in an.render(t):
+                flags.add(t.get('d').split('::')[-1])
+    fs = dom.facts_at(aa, ins[0]['i'])
+    guard = [f for f in fs if f[1] == '==' and f[2] == '0' and any(f[0].endswith('.' + fl) or f[0].endswith('->' + fl) for fl in flags)]
+    if guard:
+        run.held(rule, inst, aa.loc(ins[0]), 'insertion under %s; analyse_opcode sets %s in its DELETE arm' % (guard[0][:3], sorted(flags)))
+    else:
+        run.violated(rule, inst, aa.loc(ins[0]), 'decoder::apply_analysis inserts a TEMP_COPY for every rule slot that is changed and referenced, also when the slot\'s own code deletes it '
+                     '(flags set in the DELETE arm of analyse_opcode: %s; tests dominating the insertion: %s): the copy takes the slot\'s place in the slot map, SlotMap::collectGarbage frees '
+                     'the copy and never hands the deleted slot to Segment::freeSlot -- it stays in its parent\'s child chain although it is no longer in the segment'
+                     % (sorted(flags) or 'none', [f[:3] for f in fs if 'flags' in f[0]]))
+
+
 def run(run):
     vm = R.get_vm(run)
     fx = vm.fx
+    garbage_sees_deleted(run, fx)
     treewriters(run, fx)
     attach(run, fx)
     childreg(run, fx, vm)
